@@ -150,6 +150,17 @@ PROPS['C08'] = dict(
     explanation='kernel: in-memory -D/-U transitions proved; persistence across processes and failure rollback not decided',
     not_decided=['setup --wipe re-derives the configuration from the recorded command lines', 'a failing configure/reconfigure leaves every persisted value as it was', 'coredata pickling'],
 )
+PROPS['C01'] = dict(
+    modules=['contracts.lang'],
+    bounded=['bounded.lang'],
+    level='other',
+    design_ref='DESIGN.md §4 C01',
+    technique='deductive (kernel): VCs from the real AST of interpreter primitives (integer division/modulo, array + / += and indexing) and of the and/or evaluation methods (ghost effect trace: which operand is evaluated when); small programs through the real `meson setup --backend=none` against a reference evaluator bounded',
+    level_text='Proved for all operands: / and % are floor division and sign-of-divisor modulo with division by zero an error; array + and += build a NEW array and change neither operand (value semantics: frame clause on the held list and non-identity of the result); indexing accepts exactly [-n, n) and counts negative indices from the end; in `a and b` / `a or b` the left operand is evaluated first and once and the right one iff the left does not decide.',
+    level_note='Assumed: the typed_operator decorators check the operand type before the call; evaluate_statement / _holderify / operator_call(BOOL) as opaque effects. NOT decided: the composition — that whole programs evaluate as the reference prescribes (precedence ladder conformance, subdir/subproject scoping, the str/dict method tables, escape decoding) is only exercised by the bounded program layer.',
+    explanation='kernel clauses proved on the primitives and the short-circuit evaluation; whole-program semantics is a bounded stand-in',
+    not_decided=['precedence and associativity as a proof over the parser ladder', 'subdir() / subproject() variable scoping', 'documented str/array/dict/int/bool method tables', 'escape decoding table'],
+)
 
 # properties with no check yet or outside the technique, each with the reason
 NOT_APPLICABLE = {
